@@ -92,6 +92,8 @@ pub struct Ctx {
     /// keep the byte case being executed in a file (crash attribution); worth it only
     /// when a case costs milliseconds
     pub journal_bytes: Cell<bool>,
+    /// proptest shrink iterations per failure (expensive cases lower it)
+    pub shrink_iters: Cell<u32>,
     /// byte cases already dealt with by an earlier incarnation of this shard (it crashed):
     /// they are generated but not executed again
     pub fast_forward: Cell<u64>,
@@ -127,6 +129,7 @@ impl Ctx {
             violations: Cell::new(0),
             quiet: false,
             journal_bytes: Cell::new(false),
+            shrink_iters: Cell::new(1_500),
             fast_forward: Cell::new(0),
             case_no: Cell::new(0),
         }
@@ -343,7 +346,7 @@ impl Ctx {
                 cases: remaining,
                 failure_persistence: None,
                 rng_seed: RngSeed::Fixed(seed),
-                max_shrink_iters: 1_500,
+                max_shrink_iters: self.shrink_iters.get(),
                 max_local_rejects: 1_000_000,
                 max_global_rejects: 1_000_000,
                 ..Config::default()
